@@ -603,12 +603,14 @@ func cases(tier string, seed int64) []fw.Case {
 	}
 	stakes := [][]int64{{40e6, 30e6, 20e6, 10e6}, {25e6, 25e6, 25e6, 25e6}, {30e6, 20e6, 20e6, 15e6, 15e6}}
 	for i := 0; i < n; i++ {
-		omni := c09.Params{Stakes: stakes[i%len(stakes)], NChains: 1 + i%2, Blocks: blocks, Focus: []string{"mixed", "consensus", "skyway", "jobs"}[i%4], Hostile: 35, HonestValsetAt: []int{70, 0, 120}[i%3]}
+		omni := c09.Params{Stakes: stakes[i%len(stakes)], NChains: 1 + i%2, Blocks: blocks, Focus: []string{"mixed", "consensus", "skyway", "jobs"}[i%4], Hostile: 35, HonestValsetAt: []int{70, 0, 120}[i%3],
+			// genesis on the evening before a month end, at a month end, or shortly before a daylight-saving switch
+			StartUnix: []int64{time.Date(2025, 1, 30, 12, 0, 0, 0, time.UTC).Unix(), 0, time.Date(2025, 3, 31, 2, 0, 0, 0, time.UTC).Unix(), time.Date(2025, 10, 30, 22, 0, 0, 0, time.UTC).Unix()}[i%4]}
 		twins := []twinSpec{
 			{Name: "base-env-unset", AllEnv: "unset", Repeat: true},
 			{Name: "env-set", AllEnv: "set", SetEnv: map[string]string{"TZ": "Pacific/Kiritimati", "GOMAXPROCS": "1", "GOGC": "20", "LANG": "tr_TR.UTF-8"}},
 			{Name: "restart+queries", AllEnv: "unset", Restart: true, Queries: true},
-			{Name: "leveldb", AllEnv: "unset", LevelDB: true},
+			{Name: "leveldb", AllEnv: "unset", LevelDB: true, SetEnv: map[string]string{"TZ": "America/New_York"}},
 		}
 		if tier == "thorough" {
 			twins = append(twins, twinSpec{Name: "env-set+restart+queries+leveldb", AllEnv: "set", Restart: true, Queries: true, LevelDB: true},
